@@ -318,7 +318,9 @@ def run_case(c):
     o2, g2 = outcome(c["s2"])
     pyeq = hasheq = True
     if g1 is not None and g2 is not None:
-        pyeq = bool(g1 == g2)
+        # == must hold in both directions for two spellings; for two different patterns either direction counts
+        a, b = bool(g1 == g2), bool(g2 == g1)
+        pyeq = (a and b) if c.get("same", True) else (a or b)
         try:
             hasheq = [hash(g) for g in g1] == [hash(g) for g in g2]
         except BaseException:   # noqa: B902
